@@ -191,6 +191,14 @@ CLAIMS = {
         "iteration loop replayed from the recorded convergence flags. Partial: FFT rounding, the heuristic radius search and the "
         "accuracy-vs-estimate claim are explored by the search against closed-form series (one known finding recorded).",
    technique="Lean 4 proof (roots of unity / geometric sums, Richardson algebra, loop invariant) + exact correspondence + oracle search"),
+ 'C19': dict(
+   text="Mostly a property of an external library (scipy.optimize._numdiff.approx_derivative), so the claim is partial by nature. Proved in "
+        "Lean 4 on our side: method_map_total (the method table, regenerated from nd_scipy.py on every run: central->3-point, forward->2-point, "
+        "complex->cs, backward silently ->2-point, anything else KeyError), forwarding (step, bounds, extra arguments reach the external call "
+        "unchanged), cs_affine_exact (under scipy's documented 'cs' contract Im f(x+ih e_j)/h the entry (i,j) of an affine map is exactly A_ij for "
+        "every h != 0, every n), gradient_squeeze_shape. Tie: the options actually handed to approx_derivative are intercepted and compared "
+        "exactly. Search on the real scipy: affine / nonlinear maps, shapes, forwarded arguments, every evaluation point inside the box.",
+   technique="Lean 4 proof of the wrapper logic on generated code + interception of the external call; search on the real scipy"),
 }
 
 checks = []
